@@ -384,6 +384,8 @@ Proof.
   (* enum *)
   - cbn [load_scalar]. rewrite (enum_lookup_doc ms1 (JStr s) name ms2 (JStr s)); auto using jv_py_eqb_str_refl.
   - cbn [load_scalar]. rewrite (enum_lookup_doc ms1 (JInt z) name ms2 (JInt z)); auto using jv_py_eqb_int_refl.
+  - cbn [load_scalar]. destruct e;
+      rewrite (enum_lookup_doc ms1 (JStr s) name ms2 (JStr s)); auto using jv_py_eqb_str_refl.
   (* decimal *)
   - destruct e; reflexivity.
   - destruct e; reflexivity.
